@@ -1,6 +1,50 @@
 (* TotalTables.v — C13 for trees WITH tables and comment range markers:
-   if the local evaluation of every element succeeds (and every w:tc ends, as
-   the schema asks, with paragraph content) the whole walk succeeds. *)
+   if the local evaluation of every element succeeds, and every w:tc ends with
+   paragraph content (as Word's rule "a cell ends with a w:p" guarantees), the
+   whole walk succeeds, the collector finishes and the views render.
+
+   Main results
+     close_table_cell_ok_iff   under J and the local conditions (gather_Pr, the
+                               gridSpan value) close_table_cell succeeds IFF
+                               spine_ok 3 (c_tree s)  [root and newest table
+                               non-empty]  and, when duplicate_merged_cells
+                               and gridSpan > 1, spine_ok 4 (c_tree s)
+                               [newest row non-empty]; otherwise IndexError
+     walk_total_tables, collect_total_tables(_strong), rendering_total_tables
+     all_local_ok'_all_local_ok2   TotalFacts' hypothesis is a special case
+     cell_ok_ends_with_par         a cell whose last paragraph-bearing child is
+                                   a w:p satisfies the structural condition
+     tt_doc_ok / tt_doc_collects / tt_doc_result    the example
+
+   FINDINGS
+   1. The structural condition that was expected to suffice, "some w:p below
+      the w:tc" (local_ok2_weak), does not:
+        walk_total_tables_counterexample      <w:tc><w:customXml><w:customXml>
+          <w:p/></w:customXml><w:tbl>...</w:tbl></w:customXml></w:tc> — a
+          structure the XSD allows — raises IndexError in close_table_cell
+          for both settings of duplicate_merged_cells;
+        walk_total_tables_dup_counterexample  a gridSpan=2 cell holding
+          <w:customXml><w:p/><w:sdt>..<w:p/>..</w:sdt></w:customXml> raises
+          IndexError when duplicate_merged_cells = True only;
+        cell_without_paragraph_counterexample <w:tc/> raises IndexError.
+      The cause is always the same: after the last paragraph of the cell the
+      caret is raised (an element of depth 1 or 2) and dropped again (closing
+      an element of depth 2 or 3), which appends an EMPTY table or row, and
+      close_table_cell reads root[-1][-1] resp. this_tr[-1].
+      Hypothesis used instead (decidable, [tc_ok]): the last paragraph-bearing
+      child of the cell "ends with paragraph content" — it is a w:p, or a
+      chain of wrappers (w:sdt/w:sdtContent/w:customXml ..., children walked,
+      no w:tc) down to a w:p where no wrapper sits deeper than its last
+      paragraph-bearing child ([ends_full], needed when the cell is
+      duplicated) resp. no wrapper of depth 2 does ([ends_row], otherwise).
+      It is sufficient, not necessary; the exact condition on the STATE is
+      close_table_cell_ok_iff.
+   2. The proposed strengthening of the invariant ("every table has a row,
+      every row a cell") is not an invariant, not even of final trees of
+      ordinary documents (J2_naive_counterexample: a content control holding a
+      paragraph and a table).  No strengthening of the state invariant is
+      needed: J2 is the J of TotalFacts, and the non-emptiness that
+      close_table_cell needs is re-established inside each cell. *)
 From Coq Require Import List NArith ZArith Bool Arith Lia.
 From D2P Require Import Str Err Xml TableTypes Tables Fmt NumFmt Bullets Merge Collector Walk
      Iter Output.
@@ -31,17 +75,26 @@ Fixpoint last_pc (l : list anode) : option anode :=
               end
   end.
 
+(* closing an element of depth a, after a last paragraph-bearing child of
+   depth b, does not DROP the caret ... *)
 Definition dle (a b : option nat) : bool :=
   match a with
   | None => true
-  | Some x => match b with Some y => Nat.leb x y | None => false end
+  | Some x => Nat.eqb x 1 || match b with Some y => Nat.leb x y | None => false end
+  end.
+(* ... or drops it to depth 3 or 4 only *)
+Definition dle3 (a b : option nat) : bool :=
+  match a with
+  | None => true
+  | Some x => Nat.leb 3 x || dle a b
   end.
 
 (* "t ends with paragraph content": t is a w:p, or a wrapper (w:sdt,
    w:sdtContent, w:customXml, w:ins ...; not a w:tc, not an element whose
    children are skipped) whose last paragraph-bearing child ends with
-   paragraph content and does not sit above t in the nested list *)
-Fixpoint ends_full (t : anode) : bool :=
+   paragraph content and whose own closing does not move the caret down
+   (condition D on the depths of the two elements) *)
+Fixpoint ends_gen (D : option nat -> option nat -> bool) (t : anode) : bool :=
   match t with
   | AX _ => false
   | AE e ks =>
@@ -54,7 +107,7 @@ Fixpoint ends_full (t : anode) : bool :=
                             match go r with
                             | Some b => Some b
                             | None => if has_par k
-                                      then Some (ends_full k && dle (elem_depth t) (elem_depth k))
+                                      then Some (ends_gen D k && D (elem_depth t) (elem_depth k))
                                       else None
                             end
                         end) ks with
@@ -62,18 +115,38 @@ Fixpoint ends_full (t : anode) : bool :=
               | None => false
               end
   end.
+(* afterwards the newest row of the newest table has a cell ... *)
+Definition ends_full : anode -> bool := ends_gen dle.
+(* ... afterwards the newest table has a row *)
+Definition ends_row : anode -> bool := ends_gen dle3.
 
-(* the structural condition on the children of a w:tc *)
+(* the structural conditions on the children of a w:tc: the last child with
+   a paragraph below it ends with paragraph content.  The schema (with the
+   rule that a cell ends with a w:p) gives the simplest instance: that child
+   IS a w:p (cell_ok_ends_with_par below). *)
 Definition cell_ok (ks : list anode) : bool :=
   match last_pc ks with Some k => ends_full k | None => false end.
+Definition row_ok (ks : list anode) : bool :=
+  match last_pc ks with Some k => ends_row k | None => false end.
+
+(* what close_table_cell evaluates locally, and the structural condition:
+   [cell_ok] when the cell will be duplicated (duplicate_merged_cells and a
+   gridSpan above 1), [row_ok] otherwise *)
+Definition tc_ok (v : env) (e : einfo) (ks : list anode) : bool :=
+  match gather_Pr e ks with
+  | Ok pr =>
+      match span_of pr with
+      | Ok g => if (env_dup v && Z.ltb 1 g)%bool then cell_ok ks else row_ok ks
+      | Err _ => false
+      end
+  | Err _ => false
+  end.
 
 Definition local_ok2 (v : env) (t : anode) : bool :=
   match t with
   | AX _ => true
   | AE e ks =>
-      if str_eqb (e_ptag e) tag_TABLE_CELL then
-        match gather_Pr e ks with Ok pr => is_ok (span_of pr) | Err _ => false end
-        && cell_ok ks
+      if str_eqb (e_ptag e) tag_TABLE_CELL then tc_ok v e ks
       else if (str_eqb (e_ptag e) tag_COMMENT_RANGE_START
                || str_eqb (e_ptag e) tag_COMMENT_RANGE_END)%bool then
         is_ok (attr_w_req e s_id)
@@ -106,7 +179,7 @@ Fixpoint all_local_ok2_weak (v : env) (t : anode) : bool :=
    and its newest table are non-empty — and, when a cell is to be duplicated,
    [spine_ok 4 (c_tree s)] — the newest row is non-empty too.  Neither is
    invariant (the caret dropping from depth 1 or 2 appends an empty table or
-   row); [cell_ok] re-establishes them locally, at the end of each cell, so the
+   row); [row_ok] / [cell_ok] re-establish them locally, at the end of each cell, so the
    invariant of the walk itself is the J of TotalFacts. *)
 Definition J2 (s : cst) : Prop := J s.
 
@@ -694,20 +767,26 @@ Proof.
   cbn [orb] in L. apply TotalFacts.open_tag_J; assumption.
 Qed.
 
+Lemma spine_ok_4_3 l : spine_ok 4 l -> spine_ok 3 l.
+Proof. apply spine_ok_pred. Qed.
+
 Lemma close_tag_J2 v e ks s :
   local_ok2 v (AE e ks) = true -> J s ->
-  (str_eqb (e_ptag e) tag_TABLE_CELL = true -> spine_ok 4 (c_tree s)) ->
+  (str_eqb (e_ptag e) tag_TABLE_CELL = true -> row_ok ks = true -> spine_ok 3 (c_tree s)) ->
+  (str_eqb (e_ptag e) tag_TABLE_CELL = true -> cell_ok ks = true -> spine_ok 4 (c_tree s)) ->
   exists s', close_tag v e ks s = Ok s' /\ J s'.
 Proof.
-  intros L HJ Hsp. unfold local_ok2 in L.
+  intros L HJ Hsp3 Hsp4. unfold local_ok2 in L.
   destruct (str_eqb (e_ptag e) tag_TABLE_CELL) eqn:Ttc.
-  { rewrite (close_tag_tc _ _ _ _ Ttc).
-    apply andb_true_iff in L. destruct L as [L _].
+  { rewrite (close_tag_tc _ _ _ _ Ttc). unfold tc_ok in L.
     destruct (gather_Pr e ks) as [pr|] eqn:Epr; [|discriminate L].
     destruct (span_of pr) as [g|] eqn:Eg; [|discriminate L].
-    pose proof (Hsp eq_refl) as H4.
-    apply (close_table_cell_total v e ks s pr g HJ Epr Eg); [|intros _ _; exact H4].
-    destruct (c_tree s) as [|[[|[l|p] r]|p] old]; cbn in H4 |- *; try contradiction; exact I. }
+    apply (close_table_cell_total v e ks s pr g HJ Epr Eg).
+    - destruct (env_dup v && Z.ltb 1 g)%bool.
+      + apply spine_ok_4_3. exact (Hsp4 eq_refl L).
+      + exact (Hsp3 eq_refl L).
+    - intros Hd Hg1. rewrite Hd in L. apply Z.ltb_lt in Hg1. rewrite Hg1 in L. cbn [andb] in L.
+      exact (Hsp4 eq_refl L). }
   destruct (str_eqb (e_ptag e) tag_COMMENT_RANGE_START) eqn:Ts.
   { rewrite (close_tag_crs _ _ _ _ Ts). exists s. auto. }
   destruct (str_eqb (e_ptag e) tag_COMMENT_RANGE_END) eqn:Te.
@@ -719,21 +798,21 @@ Qed.
 (* PART 5 — the walk                                                    *)
 (* ================================================================== *)
 (* ---- the syntactic predicates ---- *)
-Lemma ends_full_AE e ks :
-  ends_full (AE e ks)
+Lemma ends_gen_AE D e ks :
+  ends_gen D (AE e ks)
   = if str_eqb (e_ptag e) tag_PARAGRAPH then true
     else recurses (e_ptag e) && negb (str_eqb (e_ptag e) tag_TABLE_CELL)
          && match last_pc ks with
-            | Some k => ends_full k && dle (elem_depth (AE e ks)) (elem_depth k)
+            | Some k => ends_gen D k && D (elem_depth (AE e ks)) (elem_depth k)
             | None => false
             end.
 Proof.
-  cbn [ends_full]. destruct (str_eqb (e_ptag e) tag_PARAGRAPH); [reflexivity|].
+  cbn [ends_gen]. destruct (str_eqb (e_ptag e) tag_PARAGRAPH); [reflexivity|].
   f_equal.
   match goal with
   | |- match ?g ks with _ => _ end = _ =>
       assert (G : g ks = match last_pc ks with
-                         | Some k => Some (ends_full k && dle (elem_depth (AE e ks)) (elem_depth k))
+                         | Some k => Some (ends_gen D k && D (elem_depth (AE e ks)) (elem_depth k))
                          | None => None
                          end)
   end.
@@ -780,14 +859,52 @@ Qed.
 
 Lemma cell_ok_last ks : cell_ok ks = true -> exists k, last_pc ks = Some k /\ ends_full k = true.
 Proof. unfold cell_ok. destruct (last_pc ks) as [k|]; [eauto|discriminate]. Qed.
+Lemma row_ok_last ks : row_ok ks = true -> exists k, last_pc ks = Some k /\ ends_row k = true.
+Proof. unfold row_ok. destruct (last_pc ks) as [k|]; [eauto|discriminate]. Qed.
 
-(* [cell_ok] implies the condition that was expected to suffice *)
-Lemma cell_ok_has_par e ks :
-  str_eqb (e_ptag e) tag_PARAGRAPH = false -> cell_ok ks = true -> has_par (AE e ks) = true.
+Lemma tc_ok_last v e ks : tc_ok v e ks = true -> exists k, last_pc ks = Some k.
 Proof.
-  intros Hp H. destruct (cell_ok_last _ H) as (k & Hk & _).
+  unfold tc_ok. destruct (gather_Pr e ks) as [pr|]; [|discriminate].
+  destruct (span_of pr) as [g|]; [|discriminate].
+  destruct (env_dup v && Z.ltb 1 g)%bool; intro H.
+  - destruct (cell_ok_last _ H) as (k & Hk & _). eauto.
+  - destruct (row_ok_last _ H) as (k & Hk & _). eauto.
+Qed.
+
+(* the structural conditions imply the one that was expected to suffice *)
+Lemma tc_ok_has_par v e ks :
+  str_eqb (e_ptag e) tag_PARAGRAPH = false -> tc_ok v e ks = true -> has_par (AE e ks) = true.
+Proof.
+  intros Hp H. destruct (tc_ok_last _ _ _ H) as (k & Hk).
   unfold has_par. rewrite min_par_depth_AE, Hp.
   destruct (mpd_list ks) eqn:E; [reflexivity|]. exfalso. exact (last_pc_mpd_list _ _ Hk E).
+Qed.
+
+(* the shape the schema asks for: the last paragraph-bearing child of the
+   cell is a w:p *)
+Lemma ends_gen_par D e ks : str_eqb (e_ptag e) tag_PARAGRAPH = true -> ends_gen D (AE e ks) = true.
+Proof. intro H. rewrite ends_gen_AE, H. reflexivity. Qed.
+
+Lemma last_pc_app_par pre e ks post :
+  str_eqb (e_ptag e) tag_PARAGRAPH = true -> forallb (fun k => negb (has_par k)) post = true ->
+  last_pc (pre ++ AE e ks :: post) = Some (AE e ks).
+Proof.
+  intros Hp Hpost.
+  assert (Hl : last_pc post = None).
+  { induction post as [|k r IH]; [reflexivity|]. cbn [forallb] in Hpost.
+    apply andb_true_iff in Hpost. destruct Hpost as [Hk Hr]. cbn [last_pc]. rewrite (IH Hr).
+    apply negb_true_iff in Hk. rewrite Hk. reflexivity. }
+  induction pre as [|k r IH]; cbn [app last_pc].
+  - rewrite Hl. unfold has_par. rewrite min_par_depth_AE, Hp. reflexivity.
+  - rewrite IH. reflexivity.
+Qed.
+
+Lemma cell_ok_ends_with_par pre e ks post :
+  str_eqb (e_ptag e) tag_PARAGRAPH = true -> forallb (fun k => negb (has_par k)) post = true ->
+  cell_ok (pre ++ AE e ks :: post) = true /\ row_ok (pre ++ AE e ks :: post) = true.
+Proof.
+  intros Hp Hpost. unfold cell_ok, row_ok. rewrite (last_pc_app_par _ _ _ _ Hp Hpost).
+  split; apply ends_gen_par; exact Hp.
 Qed.
 
 Lemma par_depth_4 e ks : str_eqb (e_ptag e) tag_PARAGRAPH = true -> elem_depth (AE e ks) = Some 4.
@@ -797,15 +914,26 @@ Proof.
 Qed.
 
 (* ---- the postcondition of one element ---- *)
+Definition spn (b : bool) : nat := if b then 4 else 3.
+Definition ends_b (b : bool) : anode -> bool := ends_gen (if b then dle else dle3).
+(* ends_b true = ends_full, ends_b false = ends_row *)
+
 Definition Post (t : anode) (s s' : cst) : Prop :=
   J s'
   /\ (has_par t = false -> so4 s s')
-  /\ (ends_full t = true -> spine_ok 4 (c_tree s'))
+  /\ (forall b, ends_b b t = true -> spine_ok (spn b) (c_tree s'))
   /\ (forall d, elem_depth t = Some d -> c_depth s' = d).
 
 Definition walk_T_at (v : env) (t : anode) : Prop :=
   forall path s, all_local_ok2 v t = true -> J s ->
     exists s', walk v path t s = Ok s' /\ Post t s s'.
+
+Lemma so4_spine s s' b :
+  so4 s s' -> Inv s' -> spine_ok (spn b) (c_tree s) -> spine_ok (spn b) (c_tree s').
+Proof.
+  intros [[T D]|D] HI H; [rewrite T; exact H|].
+  pose proof (Inv_depth4_spine _ HI D) as H4. destruct b; [exact H4|apply spine_ok_4_3; exact H4].
+Qed.
 
 Lemma below_loop_total2 v path ks :
   Forall (walk_T_at v) ks -> forallb (all_local_ok2 v) ks = true ->
@@ -828,8 +956,9 @@ Lemma kids_loop_T v path ks :
   forall i s, J s ->
   exists s', kids_loop v path ks i s = Ok s' /\ J s'
     /\ (last_pc ks = None -> so4 s s')
-    /\ (forall k, last_pc ks = Some k -> ends_full k = true ->
-          spine_ok 4 (c_tree s') /\ forall dk, elem_depth k = Some dk -> dk <= c_depth s').
+    /\ (forall k, last_pc ks = Some k ->
+          (forall dk, elem_depth k = Some dk -> dk <= c_depth s')
+          /\ forall b, ends_b b k = true -> spine_ok (spn b) (c_tree s')).
 Proof.
   induction 1 as [|k r Hk Hr IH]; intros Hl i s HJ; cbn [kids_loop].
   - exists s. split; [reflexivity|]. split; [exact HJ|]. split; [intros _; apply so4_refl|].
@@ -839,20 +968,26 @@ Proof.
     destruct (IH Hlr (S i) s1 J1) as (s' & E' & J' & Q1 & Q2).
     exists s'. split; [exact E'|]. split; [exact J'|]. cbn [last_pc].
     destruct (last_pc r) as [x|] eqn:El.
-    + split; [discriminate|]. intros k0 Hk0 He. injection Hk0 as <-. apply (Q2 x eq_refl He).
+    + split; [discriminate|]. intros k0 Hk0. injection Hk0 as <-. apply (Q2 x eq_refl).
     + specialize (Q1 eq_refl). destruct (has_par k) eqn:Hp.
-      * split; [discriminate|]. intros k0 Hk0 He. injection Hk0 as <-.
-        split; [exact (so4_spine4 _ _ Q1 (proj1 J') (P2 He))|].
-        intros dk Hd. apply (so4_depth _ _ _ Q1 (elem_depth_le4 _ _ Hd)).
-        rewrite (P3 dk Hd). lia.
+      * split; [discriminate|]. intros k0 Hk0. injection Hk0 as <-. split.
+        -- intros dk Hd. apply (so4_depth _ _ _ Q1 (elem_depth_le4 _ _ Hd)).
+           rewrite (P3 dk Hd). lia.
+        -- intros b He. exact (so4_spine _ _ b Q1 (proj1 J') (P2 b He)).
       * split; [|discriminate]. intros _. exact (so4_trans _ _ _ (P1 eq_refl) Q1).
+Qed.
+
+Lemma Inv_depth_spine3 s : Inv s -> 3 <= c_depth s -> spine_ok 3 (c_tree s).
+Proof.
+  intros (_ & R & S) D. assert (C : c_depth s = 3 \/ c_depth s = 4) by lia.
+  destruct C as [C|C]; rewrite C in S; [exact S|apply spine_ok_4_3; exact S].
 Qed.
 
 Lemma walk_T v : forall t, walk_T_at v t.
 Proof.
   apply ShapeFacts.anode_ind'.
   - intros tl path s _ HJ. exists s. split; [reflexivity|]. split; [exact HJ|].
-    split; [intros _; apply so4_refl|]. split; discriminate.
+    split; [intros _; apply so4_refl|]. split; [intros b Hb|intros d Hd]; discriminate.
   - intros e ks HF path s Hl HJ. cbn [all_local_ok2] in Hl.
     apply andb_true_iff in Hl. destruct Hl as [Hloc Hks].
     rewrite walk_AE. cbv zeta.
@@ -872,21 +1007,24 @@ Proof.
     (* the state after the children *)
     assert (H3 : exists s3, (if rec then kids_loop v path ks 0 s2 else Ok s2) = Ok s3 /\ J s3
                /\ (last_pc ks = None -> so4 s2 s3)
-               /\ (rec = true -> forall k, last_pc ks = Some k -> ends_full k = true ->
-                     spine_ok 4 (c_tree s3)
-                     /\ forall dk, elem_depth k = Some dk -> dk <= c_depth s3)).
+               /\ (rec = true -> forall k, last_pc ks = Some k ->
+                     (forall dk, elem_depth k = Some dk -> dk <= c_depth s3)
+                     /\ forall b, ends_b b k = true -> spine_ok (spn b) (c_tree s3))).
     { destruct rec.
       - exists s3k. split; [exact E3k|]. split; [exact J3k|]. split; [exact K1|]. intros _. exact K2.
       - exists s2. split; [reflexivity|]. split; [exact J2'|]. split; [intros _; apply so4_refl|].
         discriminate. }
     destruct H3 as (s3 & E3 & J3 & F1 & F2). rewrite E3. cbn [bind]. clear s3k E3k J3k K1 K2.
     (* closing *)
-    assert (Htc : str_eqb (e_ptag e) tag_TABLE_CELL = true -> spine_ok 4 (c_tree s3)).
-    { intro Ttc. unfold local_ok2 in Hloc. rewrite Ttc in Hloc.
-      apply andb_true_iff in Hloc. destruct Hloc as [_ Hc].
-      destruct (cell_ok_last _ Hc) as (k & Hk & He).
-      exact (proj1 (F2 (Hrec (tc_recurses _ Ttc)) k Hk He)). }
-    destruct (close_tag_J2 v e ks s3 Hloc J3 Htc) as (s4 & E4 & J4). rewrite E4. cbn [bind].
+    assert (Htc3 : str_eqb (e_ptag e) tag_TABLE_CELL = true -> row_ok ks = true ->
+                   spine_ok 3 (c_tree s3)).
+    { intros Ttc Hc. destruct (row_ok_last _ Hc) as (k & Hk & He).
+      exact (proj2 (F2 (Hrec (tc_recurses _ Ttc)) k Hk) false He). }
+    assert (Htc4 : str_eqb (e_ptag e) tag_TABLE_CELL = true -> cell_ok ks = true ->
+                   spine_ok 4 (c_tree s3)).
+    { intros Ttc Hc. destruct (cell_ok_last _ Hc) as (k & Hk & He).
+      exact (proj2 (F2 (Hrec (tc_recurses _ Ttc)) k Hk) true He). }
+    destruct (close_tag_J2 v e ks s3 Hloc J3 Htc3 Htc4) as (s4 & E4 & J4). rewrite E4. cbn [bind].
     destruct (set_caret_opt_J2 (elem_depth (AE e ks)) None s4 (elem_depth_range _) J4)
       as (s5 & E5 & J5 & D5 & N5 & U5).
     exists s5. split; [exact E5|]. split; [exact J5|].
@@ -898,27 +1036,33 @@ Proof.
       assert (Ttc : str_eqb (e_ptag e) tag_TABLE_CELL = false).
       { destruct (str_eqb (e_ptag e) tag_TABLE_CELL) eqn:Ttc; [|reflexivity]. exfalso.
         unfold local_ok2 in Hloc. rewrite Ttc in Hloc.
-        apply andb_true_iff in Hloc. destruct Hloc as [_ Hc].
-        destruct (cell_ok_last _ Hc) as (k & Hk & _). congruence. }
+        destruct (tc_ok_last _ _ _ Hloc) as (k & Hk). congruence. }
       eapply so4_trans; [exact S12|]. eapply so4_trans; [exact (F1 Hl)|].
       exact (close_tag_so4 _ _ _ _ _ Tp Ttc E4).
     + (* the element ends with paragraph content *)
-      intro He. rewrite ends_full_AE in He.
+      intros b He. unfold ends_b in He. rewrite ends_gen_AE in He.
       destruct (str_eqb (e_ptag e) tag_PARAGRAPH) eqn:Tp.
-      { apply Inv_depth4_spine; [exact (proj1 J5)|]. apply D5. apply par_depth_4. exact Tp. }
+      { assert (H4 : spine_ok 4 (c_tree s5)).
+        { apply Inv_depth4_spine; [exact (proj1 J5)|]. apply D5. apply par_depth_4. exact Tp. }
+        destruct b; [exact H4|apply spine_ok_4_3; exact H4]. }
       apply andb_true_iff in He. destruct He as [He Hk].
       apply andb_true_iff in He. destruct He as [Hr Ttc]. apply negb_true_iff in Ttc.
       destruct (last_pc ks) as [k|] eqn:El; [|discriminate Hk].
       apply andb_true_iff in Hk. destruct Hk as [Hek Hdle].
-      destruct (F2 (Hrec Hr) k eq_refl Hek) as [Sp3 Dk3].
+      destruct (F2 (Hrec Hr) k eq_refl) as [Dk3 Sp3]. specialize (Sp3 b Hek).
       pose proof (close_tag_so4 _ _ _ _ _ Tp Ttc E4) as S34.
-      pose proof (so4_spine4 _ _ S34 (proj1 J4) Sp3) as Sp4.
-      destruct (elem_depth (AE e ks)) as [dt|] eqn:Edt.
-      * unfold dle in Hdle. destruct (elem_depth k) as [dk|] eqn:Edk; [|discriminate Hdle].
-        apply Nat.leb_le in Hdle.
-        rewrite (U5 dt eq_refl); [exact Sp4|].
-        pose proof (so4_depth _ _ dk S34 (elem_depth_le4 _ _ Edk) (Dk3 dk eq_refl)). lia.
-      * rewrite (N5 eq_refl). exact Sp4.
+      pose proof (so4_spine _ _ b S34 (proj1 J4) Sp3) as Sp4.
+      destruct (elem_depth (AE e ks)) as [dt|] eqn:Edt; [|rewrite (N5 eq_refl); exact Sp4].
+      assert (Hup : dle (Some dt) (elem_depth k) = true -> spine_ok (spn b) (c_tree s5)).
+      { intro Hd. unfold dle in Hd. apply orb_true_iff in Hd.
+        rewrite (U5 dt eq_refl); [exact Sp4|]. destruct Hd as [Hd|Hd].
+        - apply Nat.eqb_eq in Hd. destruct J4 as [(_ & R4 & _) _]. lia.
+        - destruct (elem_depth k) as [dk|] eqn:Edk; [|discriminate Hd]. apply Nat.leb_le in Hd.
+          pose proof (so4_depth _ _ dk S34 (elem_depth_le4 _ _ Edk) (Dk3 dk eq_refl)). lia. }
+      destruct b; [exact (Hup Hdle)|].
+      unfold dle3 in Hdle. apply orb_true_iff in Hdle. destruct Hdle as [H3|Hd]; [|exact (Hup Hd)].
+      apply Nat.leb_le in H3. apply Inv_depth_spine3; [exact (proj1 J5)|].
+      rewrite (D5 dt eq_refl). exact H3.
 Qed.
 
 (* ================================================================== *)
@@ -961,6 +1105,21 @@ Proof.
   { intros addr p Hp. apply par_run_strings_total. exact (pars_view_leaves_sty s T0 addr p Hp). }
   exists s, ps, rs, r. auto.
 Qed.
+
+(* the invariant under the primitives, under the names of the work package *)
+Lemma set_caret_J2 d name s : 1 <= d <= 4 -> J2 s ->
+  exists s', set_caret (Some d) name s = Ok s' /\ J2 s'.
+Proof. intros Hd HJ. destruct (set_caret_J d name s Hd HJ) as (s' & E & J' & _). eauto. Qed.
+Lemma commence_paragraph_J2 v elem s : elem_ok v elem -> J2 s ->
+  exists s', commence_paragraph v elem s = Ok s' /\ J2 s'.
+Proof. apply commence_paragraph_J. Qed.
+Lemma conclude_paragraph_J2 s : J2 s -> exists s', conclude_paragraph s = Ok s' /\ J2 s'.
+Proof. apply conclude_paragraph_J. Qed.
+Lemma close_table_cell_J2 v e ks s pr g :
+  J2 s -> gather_Pr e ks = Ok pr -> span_of pr = Ok g ->
+  spine_ok 3 (c_tree s) -> (env_dup v = true -> (1 < g)%Z -> spine_ok 4 (c_tree s)) ->
+  exists s', close_table_cell v e ks s = Ok s' /\ J2 s'.
+Proof. apply close_table_cell_total. Qed.
 
 (* the earlier theorem is a special case *)
 Lemma local_ok'_local_ok2 v t : local_ok' v t = true -> local_ok2 v t = true.
@@ -1098,7 +1257,7 @@ Proof.
 Qed.
 
 (* ---- FINDING 1: "some paragraph below the cell" does not suffice ---- *)
-(* (a) schema-valid as far as the XSD goes: a cell whose only block is a
+(* (a) a structure the XSD allows: a cell whose only block is a
    w:customXml that holds a wrapped paragraph and then a nested table.  The
    nested table raises the caret to depth 1; closing the customXml (depth 2)
    appends an EMPTY table, and closing the cell reads root[-1][-1]:
@@ -1140,26 +1299,30 @@ Lemma cell_without_paragraph_counterexample :
   forall html dup, collect_from (tt_env html dup) [] (tt_tbl [tt_tr [tt_tc []]]) = Err IndexError.
 Proof. intros [|] [|]; vm_compute; reflexivity. Qed.
 
-(* both are excluded by [cell_ok] *)
+(* they are excluded by [row_ok] and [cell_ok]; (b) only when its cell is to
+   be duplicated — with duplicate_merged_cells = False it is covered by the
+   theorem *)
 Example cx_excluded : forall html dup,
-  all_local_ok2 (tt_env html dup) cx_nested = false /\ all_local_ok2 (tt_env html dup) cx_dup = false.
-Proof. intros [|] [|]; split; vm_compute; reflexivity. Qed.
+  all_local_ok2 (tt_env html dup) cx_nested = false
+  /\ all_local_ok2 (tt_env html true) cx_dup = false
+  /\ all_local_ok2 (tt_env html false) cx_dup = true.
+Proof. intros [|] [|]; repeat split; vm_compute; reflexivity. Qed.
 
 (* ---- FINDING 2: the proposed strengthening of J is not an invariant ---- *)
-(* a cell (gridSpan = 2) whose content sits in a content control: every
-   hypothesis of the theorem holds, the walk from the initial state (which
-   satisfies J2_naive) succeeds, and the FINAL tree has an empty row — the
-   caret was at depth 2 when the cell was closed, and set_caret(3) in the
-   horizontal merge appended a row. *)
-Definition cx_sdt_cell : anode :=
-  tt_tbl [tt_tr [tt_tc [tt_tcPr [tt_gridSpan2]; tt_sdt [tt_sdtContent [tt_par [66%N]]]]]].
+(* a content control that holds a paragraph and then a table whose only cell
+   ends with a w:p: every hypothesis of the theorem holds, the walk from the
+   initial state (which satisfies J2_naive) succeeds, and the FINAL tree ends
+   with a table whose only row has no cell — the w:tbl (depth 1) raised the
+   caret, and closing w:sdtContent (depth 3) dropped it again. *)
+Definition cx_sdt_doc : anode :=
+  tt_body [tt_sdt [tt_sdtContent [tt_par [65%N]; tt_tbl [tt_tr [tt_tc [tt_par [66%N]]]]]]].
 
 Lemma J2_naive_counterexample :
   exists v t s, all_local_ok2 v t = true /\ J2_naive init_cst
                 /\ collect_from v [] t = Ok s /\ ~ J2_naive s.
 Proof.
-  exists (tt_env false true), cx_sdt_cell.
-  destruct (collect_from (tt_env false true) [] cx_sdt_cell) as [s|x] eqn:E;
+  exists (tt_env false true), cx_sdt_doc.
+  destruct (collect_from (tt_env false true) [] cx_sdt_doc) as [s|x] eqn:E;
     [|vm_compute in E; discriminate E].
   exists s. split; [vm_compute; reflexivity|].
   split; [split; [exact init_J|constructor]|]. split; [reflexivity|].
@@ -1167,6 +1330,15 @@ Proof.
   inversion H as [|n l Hn Hl]. cbn [rows_nonempty] in Hn. destruct Hn as [_ Hr].
   inversion Hr as [|r rs Hne Hrs]. apply Hne. reflexivity.
 Qed.
+
+(* ---- the generality of [cell_ok]: a cell (gridSpan = 2, duplicated) whose
+   whole content sits in a content control, <w:tc><w:tcPr/><w:sdt>
+   <w:sdtContent><w:p/></w:sdtContent></w:sdt></w:tc>, is covered ---- *)
+Definition tt_sdt_cell : anode :=
+  tt_tbl [tt_tr [tt_tc [tt_tcPr [tt_gridSpan2]; tt_sdt [tt_sdtContent [tt_par [66%N]]]]]].
+
+Example tt_sdt_cell_ok : forall html dup, all_local_ok2 (tt_env html dup) tt_sdt_cell = true.
+Proof. intros [|] [|]; vm_compute; reflexivity. Qed.
 
 Print Assumptions close_table_cell_total.
 Print Assumptions close_table_cell_ok_iff.
@@ -1182,3 +1354,5 @@ Print Assumptions walk_total_tables_counterexample.
 Print Assumptions walk_total_tables_dup_counterexample.
 Print Assumptions cell_without_paragraph_counterexample.
 Print Assumptions J2_naive_counterexample.
+Print Assumptions tt_sdt_cell_ok.
+Print Assumptions cell_ok_ends_with_par.
